@@ -140,6 +140,7 @@ pub fn worker_main(args: &[String]) -> i32 {
         Some("c14-threads-light") => c14::worker_threads_light(&args[1..]),
         Some("c14-threads") => c14::worker_threads(&args[1..]),
         Some("c14-silence") => c14::worker_silence(&args[1..]),
+        Some("c14-first") => c14::worker_first(&args[1..]),
         _ => {
             eprintln!("unknown worker {:?}", args.first());
             2
